@@ -56,3 +56,22 @@ End Quiesce.
 (* a consumer that takes n items and then stops (first, top(n), present ... ) *)
 Definition take_yield {B} (n : nat) (c : list (res B)) (x : res B) : list (res B) * bool :=
   (c ++ [x], Nat.ltb (S (length c)) n).
+
+(* ---------------------------------------------------------------------------------------------
+   The producing side of multiUse (iterator.CopyProducer run) and of a parallel map/accept (the feeding loop of
+   iterator.MapAuto / FilterAuto) iterates the source list on the CALLING goroutine and closes the channels its
+   goroutines wait on only behind that loop.  A panic raised by the source (the stack limit hit in the closure of an
+   upstream combine/number stage, a panicking host function) unwinds the loop before the close.  value/multiUse.go and
+   value/list.go (after `fix: a panic raised by the list that multiUse reads ...` and `... that a parallel map or accept
+   reads ...`) wrap the source in recoverInProducer: the panic arrives as the error of a final element and the loop
+   ends normally.
+   waiting = goroutines that wait on those channels (multiUse: the consumers; parallel stage: workers, the wg.Wait
+   goroutine and the collector); the result is how many of them can never return. *)
+Inductive src_ev := EvItem | EvPanic.
+
+Fixpoint stranded (recovered : bool) (waiting : nat) (evs : list src_ev) : nat :=
+  match evs with
+  | [] => 0                                        (* the loop ends: channels closed *)
+  | EvItem :: r => stranded recovered waiting r
+  | EvPanic :: _ => if recovered then 0 else waiting
+  end.
